@@ -420,9 +420,9 @@ def c02_6(ctx):
     expect = [("'l'", '0', 'self'), ("'r'", '1', 'other')]
     for (test, body), (letter, num, side) in zip(chain[:2], expect):
         ctx.count(1, fn.where(body[0]))
-        t = N(test)
-        if letter not in t or NS('mode == %s' % num) not in t:
-            ctx.fail(fn, body[0], 'mode branch test `%s` does not select %s/%s' % (U(test), letter, num))
+        ok, w = prop_equiv(test, "is_str(mode) and mode[0].lower() == %s or mode == %s" % (letter, num))
+        if not ok:
+            ctx.fail(fn, body[0], 'mode branch test `%s` is not equivalent to `is_str(mode) and mode[0].lower() == %s or mode == %s`' % (U(test), letter, num), witness=w)
         src = [s for s in body if isinstance(s, ast.Assign) and isinstance(s.value, ast.Subscript) and U(s.value.value) in ('self', 'other')]
         if not src or U(src[0].value.value) != side:
             ctx.fail(fn, body[0], "mode %s/%s takes the column from `%s`, expected `%s`" % (letter, num, U(src[0].value.value) if src else '?', side))
@@ -519,3 +519,214 @@ def cmparr_lexicographic(ctx):
             axioms=('A1', 'A5'))
 def c02_8(ctx):
     cmparr_lexicographic(ctx)
+
+
+def _venn_eval(e, env):
+    """evaluate a set-algebra expression over Venn regions (bitsets): names from env; a - b, a & b, a + b / a | b"""
+    if isinstance(e, ast.Name) and e.id in env:
+        return env[e.id]
+    k = N(e)
+    if k in env:
+        return env[k]
+    if isinstance(e, ast.BinOp):
+        a, b = _venn_eval(e.left, env), _venn_eval(e.right, env)
+        if isinstance(e.op, ast.Sub):
+            return a & ~b
+        if isinstance(e.op, ast.BitAnd):
+            return a & b
+        if isinstance(e.op, (ast.Add, ast.BitOr)):
+            return a | b
+    raise AnalysisError('expression outside the set algebra of the key bookkeeping: %s' % U(e))
+
+
+@obligation('C02.9', 'NUM (set algebra over Venn regions) + PATH', 'column bookkeeping of dictable.join',
+            'each result row carries the key, every other column of both sides and same-named non-key columns combined by mode: with L, R the column sets of the operands and C the key columns, '
+            'left-only = L-C-R, right-only = R-C-L, shared = (L&R)-C; every column of each class is stored into the result on every path; the empty result carries their union',
+            axioms=('A1',))
+def c02_9(ctx):
+    fn = ctx.repo.fn('_dictable:dictable.join')
+    # regions of the Venn diagram of (L, R, C): bit i set <=> region i included
+    regions = [(l, r_, c) for l in (0, 1) for r_ in (0, 1) for c in (0, 1)]
+    full = (1 << len(regions)) - 1
+
+    def mask(pred):
+        m = 0
+        for i, reg in enumerate(regions):
+            if pred(*reg):
+                m |= 1 << i
+        return m
+    env = {'self.keys()': mask(lambda l, r_, c: l), 'other.keys()': mask(lambda l, r_, c: r_), 'cols': mask(lambda l, r_, c: c)}
+    order = []
+    for s in fn.body:
+        if isinstance(s, ast.Assign) and isinstance(s.targets[0], ast.Name) and s.targets[0].id in ('lkeys', 'rkeys', 'jkeys'):
+            env[s.targets[0].id] = _venn_eval(s.value, env) & full
+            order.append(s)
+    ctx.count(len(order), fn.where())
+    want = {'lkeys': mask(lambda l, r_, c: l and not r_ and not c), 'rkeys': mask(lambda l, r_, c: r_ and not l and not c), 'jkeys': mask(lambda l, r_, c: l and r_ and not c)}
+    names = {(1, 0, 0): 'a column only in the left table', (0, 1, 0): 'a column only in the right table', (1, 1, 0): 'a non-key column in both tables',
+             (1, 0, 1): 'a key column of the left table', (0, 1, 1): 'a key column of the right table', (1, 1, 1): 'a key column in both tables', (0, 0, 1): 'a computed key', (0, 0, 0): 'no column'}
+    for k, w in want.items():
+        if k not in env:
+            ctx.fail(fn, fn.node, 'join no longer computes the column class `%s`' % k)
+            continue
+        if env[k] != w:
+            diff = env[k] ^ w
+            i = [j for j in range(len(regions)) if diff >> j & 1][0]
+            ctx.fail(fn, [s for s in order if s.targets[0].id == k][-1], 'column class `%s` is wrong for %s: it is %s but should be %s' % (k, names[regions[i]], 'included' if env[k] >> i & 1 else 'excluded', 'included' if w >> i & 1 else 'excluded'),
+                     witness=dict(region=dict(zip(('in_left', 'in_right', 'is_key'), regions[i]))))
+    # every class is written into the result
+    for k, src in (('lkeys', 'self'), ('rkeys', 'other'), ('jkeys', None)):
+        loops = [s for s in fn.body if isinstance(s, ast.For) and U(s.iter) == k]
+        ctx.count(1)
+        if len(loops) != 1:
+            ctx.fail(fn, fn.node, 'join does not loop over the columns `%s`' % k)
+            continue
+        kv = U(loops[0].target)
+        for p in paths(loops[0].body, bound=256):
+            if p.term in ('raise',):
+                continue
+            st = [s for s in p.stmts if isinstance(s, ast.Assign) and N(s.targets[0]) == 'rtn[%s]' % kv]
+            if not st:
+                ctx.fail(fn, loops[0], 'a column of class `%s` is not stored into the result on the path [%s]' % (k, ' & '.join(p.cond_texts())[:100]))
+                break
+            if src is not None:
+                vs = [s for s in p.stmts if isinstance(s, ast.Assign) and isinstance(s.value, ast.Subscript) and U(s.value.slice) == kv]
+                if not vs or U(vs[0].value.value) != src:
+                    ctx.fail(fn, loops[0], 'columns of class `%s` are read from `%s`, expected `%s`' % (k, U(vs[0].value.value) if vs else '?', src))
+                    break
+    # the result table starts with the key columns
+    ctx.count(1)
+    rt = [s for s in ast.walk(fn.node) if isinstance(s, ast.Assign) and U(s.targets[0]) == 'rtn' and isinstance(s.value, ast.Call) and len(s.value.args) == 2]
+    if not rt or U(rt[0].value.args[1]) != 'cols':
+        ctx.fail(fn, rt[0] if rt else fn.node, 'the key values are not stored under the key columns `cols`')
+    else:
+        comp = [c for c in ast.walk(rt[0].value.args[0]) if isinstance(c, ast.ListComp)]
+        ok = comp and N(comp[0].elt) in (NS('[x] * n'), NS('n * [x]')) and N(comp[0].generators[0].iter) == 'zip(xs, ns)' and N(comp[0].generators[0].target) == '(x, n)'
+        if not ok:
+            ctx.fail(fn, rt[0], 'each key is not repeated once per row of its group product ([x] * n over zip(xs, ns)): %s' % U(rt[0].value.args[0])[:80])
+    ns = [s for s in ast.walk(fn.node) if isinstance(s, ast.Assign) and U(s.targets[0]) == 'ns']
+    if not ns or N(ns[0].value) not in (NS('[len(l) * len(r) for l, r in zip(lids, rids)]'), NS('[len(r) * len(l) for l, r in zip(lids, rids)]')):
+        ctx.fail(fn, ns[0] if ns else fn.node, 'group product sizes are not len(left ids) * len(right ids) over zip(lids, rids)')
+    # cols: per key pair, the name of whichever side is a column name; both formulas -> error
+    ctx.count(1)
+    lp = [s for s in fn.body if isinstance(s, ast.For) and N(s.iter) == 'zip(lcols, rcols)']
+    if not lp or N(lp[0].target) != '(lcol, rcol)':
+        ctx.fail(fn, lp[0] if lp else fn.node, 'key pairs are not taken as zip(lcols, rcols)')
+    else:
+        ch = if_chain(lp[0].body[0]) if isinstance(lp[0].body[0], ast.If) else []
+        got = [(N(t) if t is not None else 'else', U(b[0])) for t, b in ch]
+        if got[:2] != [('is_str(lcol)', 'cols.append(lcol)'), ('is_str(rcol)', 'cols.append(rcol)')] or len(got) != 3 or 'raise ValueError' not in got[2][1]:
+            ctx.fail(fn, lp[0], 'key column names are not chosen as: left name if it is a name, else right name, else ValueError: %s' % got)
+    # the matched groups
+    ctx.count(1)
+    eqb = [s for s in ast.walk(fn.node) if isinstance(s, ast.If) and 'cmp(' in U(s.test) and '== 0' in U(s.test)]
+    if eqb and not any(isinstance(x, ast.Expr) and N(x.value) == 'res.append((lxs[l], lids[l], rids[r]))' for x in eqb[0].body):
+        ctx.fail(fn, eqb[0], 'equal keys no longer record (key, left ids, right ids)')
+    un = [s for s in ast.walk(fn.node) if isinstance(s, ast.Assign) and N(s.targets[0]) == '(xs, lids, rids)']
+    if not un or N(un[0].value) != 'zip(*res)':
+        ctx.fail(fn, un[0] if un else fn.node, 'the matched groups are not unpacked as xs, lids, rids = zip(*res)')
+    ctx.count(1)
+    ln = [s for s in fn.body if isinstance(s, ast.If) and any(isinstance(r0, ast.Raise) for r0 in s.body) and 'len(lcols)' in U(s.test)]
+    if not ln or N(ln[0].test) != NS('len(lcols) != len(rcols)'):
+        ctx.fail(fn, ln[0] if ln else fn.node, 'key lists of different length are not rejected')
+
+
+@obligation('C02.10', 'NUM (unit steps)', 'cursors of the merge loops',
+            'the merge visits every group of both sides: cursors start at 0 and advance by exactly 1 (a step of 2 skips a group, so matching rows are lost)',
+            axioms=())
+def c02_10(ctx):
+    for name in ('join', 'xor'):
+        fn = ctx.repo.fn('_dictable:dictable.%s' % name)
+        loops = cursor_loops(fn)
+        ctx.need(loops, 'merge loop not found')
+        bounds, cursors, guards = merge_loop_facts(fn, loops[0])
+        for c in sorted(cursors):
+            init = [s for s in body_nodes(fn.node) if isinstance(s, ast.Assign) and U(s.targets[0]) == c and s.lineno < loops[0].lineno]
+            ctx.count(1, fn.where(loops[0]))
+            if not init or const(init[-1].value) != 0:
+                ctx.fail(fn, init[-1] if init else loops[0], 'cursor %s starts at %s, not 0: the first group is never visited' % (c, U(init[-1].value) if init else 'nothing'))
+            for n in ast.walk(loops[0]):
+                if isinstance(n, ast.AugAssign) and U(n.target) == c:
+                    ctx.count(1)
+                    if not (isinstance(n.op, ast.Add) and const(n.value) == 1):
+                        ctx.fail(fn, n, 'cursor %s advances by `%s %s`, expected += 1' % (c, type(n.op).__name__, U(n.value)))
+        for nm, src in (('ls', 'len(lxs)'), ('rs', 'len(rxs)')):
+            d = [s for s in body_nodes(fn.node) if isinstance(s, ast.Assign) and U(s.targets[0]) == nm]
+            ctx.count(1)
+            if not d or N(d[0].value) != src:
+                ctx.fail(fn, d[0] if d else fn.node, 'bound %s is not %s' % (nm, src))
+        want = sorted([NS('l < ls'), NS('r < rs')])
+        if sorted(bounds) != want:
+            ctx.fail(fn, loops[0], 'merge loop runs while `%s`, expected l < ls and r < rs' % U(loops[0].test))
+
+
+@obligation('C02.11', 'PATH partition (shared with C11.1/C11.2)', '_dictable:dictable._listby',
+            'join and xor pair GROUPS of rows: every row must be in exactly one group of its key (run-length loop over the sorted (key, index) pairs, last group flushed)',
+            axioms=('A1',))
+def c02_11(ctx):
+    from . import C11 as _c11
+    _c11.c11_1(ctx)
+    _c11.c11_2(ctx)
+
+
+@obligation('C02.12', 'PROP (truth tables) + PATH', 'argument normalisation of dictable.xor / dictable.join',
+            'xor returns the unmatched rows of the side named by mode (left unless mode is "r..." or 1), with no key column it is a copy of x; a non-table operand is converted; key lists of different length are rejected',
+            axioms=())
+def c02_12(ctx):
+    fx = ctx.repo.fn('_dictable:dictable.xor')
+    md = [s for s in fx.body if isinstance(s, ast.Assign) and U(s.targets[0]) == 'mode']
+    ctx.count(1, fx.where())
+    if not md or not isinstance(md[0].value, ast.IfExp) or const(md[0].value.body) != 1 or const(md[0].value.orelse) != 0:
+        ctx.fail(fx, md[0] if md else fx.node, 'mode is not normalised to 1 (right) / 0 (left): %s' % (U(md[0].value) if md else 'no normalisation'))
+    else:
+        ok, w = prop_equiv(md[0].value.test, "is_str(mode) and mode[0].lower() == 'r' or mode == 1")
+        if not ok:
+            ctx.fail(fx, md[0], 'mode selects the right table when `%s`, which is not equivalent to `is_str(mode) and mode[0].lower() == "r" or mode == 1`' % U(md[0].value.test), witness=w)
+    if const(fx.defaults().get('mode')) != 'l':
+        ctx.fail(fx, fx.node, "xor no longer defaults to the left table (mode = 'l')")
+    fin = [s for s in fx.body if isinstance(s, ast.If) and N(s.test) in (NS('mode == 0'), NS('mode == 1'), NS('mode != 0'), NS('mode != 1'))]
+    ctx.count(1)
+    if not fin:
+        ctx.fail(fx, fx.node, 'the final left/right split of xor on the normalised mode not found')
+    else:
+        t = N(fin[-1].test)
+        left_first = t in (NS('mode == 0'), NS('mode != 1'))
+        a, b = (fin[-1].body, fin[-1].orelse) if left_first else (fin[-1].orelse, fin[-1].body)
+        ra = [r for r in ast.walk(ast.Module(a, [])) if isinstance(r, ast.Return)]
+        rb = [r for r in ast.walk(ast.Module(b, [])) if isinstance(r, ast.Return)]
+        if not ra or not U(ra[0].value).startswith('self[') or not rb or not U(rb[0].value).startswith('other['):
+            ctx.fail(fx, fin[-1], 'mode 0 does not return rows of self / mode 1 rows of other')
+    for fn in (fx, ctx.repo.fn('_dictable:dictable.join')):
+        ctx.count(1, fn.where())
+        cv = [s for s in fn.body if isinstance(s, ast.If) and 'isinstance(other, dictable)' in U(s.test)]
+        if not cv or N(cv[0].test) != NS('not isinstance(other, dictable)') or N(cv[0].body[0].value) != 'dictable(other)':
+            ctx.fail(fn, cv[0] if cv else fn.node, 'a non-table right operand is not converted with dictable(other)')
+        ln = [s for s in fn.body if isinstance(s, ast.If) and any(isinstance(r0, ast.Raise) for r0 in s.body) and 'len(lcols)' in U(s.test)]
+        if not ln or N(ln[0].test) != NS('len(lcols) != len(rcols)') or 'ValueError' not in U(ln[0].body[0]):
+            ctx.fail(fn, ln[0] if ln else fn.node, 'key lists of different length are not rejected with ValueError')
+        for nm in ('lcols', 'rcols'):
+            tu = [s for s in fn.body if isinstance(s, ast.Assign) and U(s.targets[0]) == nm and N(s.value) == 'as_tuple(%s)' % nm]
+            if not tu:
+                ctx.fail(fn, fn.node, '%s is not normalised with as_tuple before it is used as the grouping key' % nm)
+        d = [s for s in fn.body if isinstance(s, ast.If) and N(s.test) == NS('lcols is None')]
+        if d and N(d[0].body[0].value) != NS('self.keys() & other.keys()'):
+            ctx.fail(fn, d[0], 'the default key is not the shared column names self.keys() & other.keys()')
+        d = [s for s in fn.body if isinstance(s, ast.If) and N(s.test) == NS('rcols is None')]
+        if d and N(d[0].body[0].value) != 'lcols':
+            ctx.fail(fn, d[0], 'the default right key is not the left key')
+    nk = [s for s in fx.body if isinstance(s, ast.If) and N(s.test) == NS('len(lcols) == 0')]
+    ctx.count(1)
+    if not nk or N(nk[0].body[0].value) != 'self.copy()':
+        ctx.fail(fx, nk[0] if nk else fx.node, 'xor without key columns is not a copy of x')
+    fj = ctx.repo.fn('_dictable:dictable.join')
+    em = [s for s in ast.walk(fj.node) if isinstance(s, ast.If) and 'len(res)' in U(s.test)]
+    ctx.count(1)
+    if not em or N(em[0].test) != NS('len(res) == 0'):
+        ctx.fail(fj, em[0] if em else fj.node, 'the empty-result case of join is decided by `%s`' % (U(em[0].test) if em else '?'))
+    else:
+        e = em[0].body[0].value
+        if isinstance(e, ast.Call) and len(e.args) == 2:
+            for n in ast.walk(e.args[1]):
+                if isinstance(n, ast.BinOp) and not isinstance(n.op, ast.Add):
+                    ctx.fail(fj, em[0], 'the columns of an empty join result are `%s`, expected the union cols + lkeys + rkeys + jkeys' % U(e.args[1]))
+                    break
